@@ -181,3 +181,20 @@ def writeEvents (magic version : Nat) (p : DupPolicy) (es : List (Event Nat Nat)
     else (some (encodeChunkWith magic version n win), .ok n)
 
 end Pyndl
+
+namespace Pyndl
+
+/-- the loop over the chunk files shared by the five compiled entry points
+    (`ndl_parallel.learn_inplace_binary_to_binary`, `ndl_openmp.learn_inplace_*`):
+    a file whose header is rejected stops the loop and the error is raised
+    (`if error != NO_ERROR: break` … `raise IOError`); `learnFile` is the event
+    loop of the respective kernel (all parts of that file). -/
+def learnChunks {σ : Type} (magic version : Nat) (learnFile : σ → List (Event Nat Nat) → σ) :
+    List Bytes → σ → σ × Option ReadErr
+  | [], w => (w, none)
+  | f :: fs, w =>
+    match decodeChunkKernel magic version f with
+    | .error e => (w, some e)
+    | .ok (es, _) => learnChunks magic version learnFile fs (learnFile w es)
+
+end Pyndl
